@@ -108,6 +108,8 @@ def parse_spec(path):
                     cur['subs'].append((mm.group(1), mm.group(2)))
                 elif word == 'only':
                     cur['only'] = rest
+                elif word == 'keepconst':
+                    cur['keepconst'] = True
                 elif word in ('A', 'B', 'proof', 'proofA', 'proofB'):
                     sec = word
                     if word == 'B':
@@ -217,13 +219,14 @@ def split_sig(fn_text, body_open):
     return fn_text[:body_open], fn_text[body_open:]
 
 
-def rewrite_sig(sig, ret):
+def rewrite_sig(sig, ret, keepconst=False):
     """R1/R3 on the signature: drop const, widen visibility, name the return value."""
     log = []
-    s2 = re.sub(r'\bconst\s+(?=(?:unsafe\s+)?(?:extern\s+"[^"]*"\s+)?fn\b)', '', sig)
-    if s2 != sig:
-        log.append('drop const')
-    sig = s2
+    if not keepconst:
+        s2 = re.sub(r'\bconst\s+(?=(?:unsafe\s+)?(?:extern\s+"[^"]*"\s+)?fn\b)', '', sig)
+        if s2 != sig:
+            log.append('drop const')
+        sig = s2
     s2 = re.sub(r'\bpub\s*\((?:crate|super)\)', 'pub', sig)
     if s2 != sig:
         log.append('pub(crate) -> pub')
@@ -533,7 +536,7 @@ class Weaver:
                 bo = i
                 break
         sig, body = split_sig(text, bo)
-        head, rettype, l2 = rewrite_sig(sig, it['ret'])
+        head, rettype, l2 = rewrite_sig(sig, it['ret'], it.get('keepconst', False))
         log += l2
         if it['rename']:
             head = re.sub(r'\bfn\s+%s\b' % re.escape(it['name']), 'fn ' + it['rename'], head, count=1)
